@@ -94,5 +94,10 @@ add("C19", "exploration",
     "The replacements rule itself is not re-implemented: what it may do to plain text is unconstrained, what it must not touch is checked.",
     "property-based testing (Hypothesis); oracle: differential typographer on/off with structural invariants + metamorphic escape==entity relation",
     "DESIGN.md section 4, C19")
+add("C20", "exploration",
+    "A catalogue of 115 scalable pathological input families x 3 presets, measured with a deterministic cost (Python-level calls into markdown_it during render, sys.setprofile) at lengths L, 2L, 4L (and 8L, 16L when the first three are ambiguous): every doubling must cost at most 1.25 x the length ratio and the cost per character must not drift; nesting families must show no growth of cost per character or of Python call depth beyond maxNesting; plus Hypothesis-generated families prefix.unit^n.middle.unit'^n.suffix. The known quadratic family (consecutive reference definitions) is reported as KNOWN-FINDING and excluded by construction from generated families.",
+    "Cost inside C primitives is invisible to the measure; inputs are bounded by L (quick 500, thorough up to 25000 characters); thresholds as stated in the evidence rule.",
+    "deterministic cost measurement over a fixed catalogue + Hypothesis-generated repeat-pattern families; oracle: linear-growth predicate on call counts",
+    "DESIGN.md section 4, C20")
 ALL = ["C%02d" % i for i in range(1, 21)]
 NA = [{"property_id": p, "reason": "check under construction in this round; not claimed until its oracle is built and shown quiet on the unchanged tree"} for p in ALL if p not in CHECKS]
